@@ -1,15 +1,15 @@
 from props import Prop, Stream, reg
 
 reg(Prop('C18', [
-    Stream('c18.wops', 8000, 1500000, 'model',
+    Stream('c18.wops', 8000, 400000, 'model',
            exhaustive='every DW_EH_PE byte x sizes {1,2,3,4,8} x constant/symbolic x both byte orders; every size argument 0..255 for write_address/write_offset/write_offset_at'),
-    Stream('c18.rprog', 8000, 1500000, 'model',
+    Stream('c18.rprog', 8000, 400000, 'model',
            exhaustive='every relocatable/plain read kind at offsets 0..2 x one relocation of every width at offsets 0..2 x implicit/explicit addends (fitting and overflowing)'),
-    Stream('c18.hdr', 5000, 800000, 'model'),
-    Stream('c18.ranges', 5000, 800000, 'model'),
-    Stream('c18.write', 1500, 150000, 'oracle', timeout=900,
+    Stream('c18.hdr', 5000, 200000, 'model'),
+    Stream('c18.ranges', 5000, 200000, 'model'),
+    Stream('c18.write', 1500, 40000, 'oracle', timeout=900,
            exhaustive='every DWARF version 2..5 x format x address size x byte order x frame-table flavour (none, .debug_frame, .eh_frame absptr, .eh_frame absptr+personality/LSDA) with all features on'),
-    Stream('c18.corpus', 1, 8, 'oracle', modes=('release',), timeout=900,
+    Stream('c18.corpus', 1, 4, 'oracle', modes=('release',), timeout=900,
            exhaustive='every corpus variant (41 section sets: gcc/clang, DWARF 2..5, split, type units, dwarf64, packages)'),
 ], level='proof (partial)', design_ref='§5 C18',
     clauses=[
